@@ -24,9 +24,9 @@ HIST_T = ('hist', ['-n', 20000, '-scans', 12])
 HIST_S = ('hist', ['-n', 3000, '-scans', 12])
 
 
-def hist(prop, focus=None, q=400, t=20000, s=3000):
+def hist(prop, focus=None, q=400, t=20000, s=1500):
     f = ['-focus', focus] if focus else []
-    corpus = [('scenario', ['-dir', '/verif/corpus/' + prop])]
+    corpus = [('scenario', ['-dir', '@ROOT/corpus/' + prop])]
     return dict(quick=corpus + [('hist', ['-n', q, '-scans', 10] + f)],
                 thorough=corpus + [('hist', ['-n', t, '-scans', 12] + f)],
                 search=[('hist', ['-n', s, '-scans', 12] + f)])
@@ -51,6 +51,44 @@ PROPS = {
                 aspects=['removals'], monitors=['C01'],
                 theorems=['Esc.P.C01_scan_partial', 'Esc.P.C01_history_partial', 'Esc.P.C01_unreadable', 'Esc.P.C01_untainted', 'Esc.P.C01_cordoned',
                           'Esc.P.C01_full_fails']),
+    'C03': dict(level='proof', module='EscProofs.P.C03', streams=hist('C03'),
+                aspects=['taintadds', 'untaints'], monitors=['C03'],
+                theorems=['Esc.P.C03_floor', 'Esc.P.C03_below_min', 'Esc.P.C03_history'],
+                technique='Lean 4 theorem (journal shape + counting lemma for the taint loop) + differential correspondence and runtime monitor',
+                level_text='C03_floor / C03_history: for every rate, minimum (configured or auto-discovered), state, view with unique node names and environment, along every history, '
+                           'untainted-seen minus accepted-taint-adds >= effective minimum whenever a taint is added; C03_below_min: below the minimum nothing is tainted. '
+                           'Tie: hist correspondence on taint-adding and taint-removing updates; the same predicate monitored on observed journals.',
+                level_note=LEVEL_NOTE),
+    'C04': dict(level='proof', module='EscProofs.P.C04', streams=hist('C04'),
+                aspects=['resize'], monitors=['C04'],
+                theorems=['Esc.P.C04_bound', 'Esc.P.C04_clamp_exact', 'Esc.P.C04_history'],
+                technique='Lean 4 theorem (walk of the journal with the running desired size; exact characterisation of IncreaseSize requests) + differential correspondence and runtime monitor',
+                level_text='C04_bound / C04_history: every SetDesiredCapacity value and every fleet request, on top of the desired size at that moment, is <= min(max_nodes, cloud max), for all inputs and histories; '
+                           'C04_clamp_exact: the clamp lands exactly on the bound and yields no request without headroom. Tie: hist correspondence on resize calls (arguments) + monitor.',
+                level_note=LEVEL_NOTE),
+    'C09': dict(level='proof', module='EscProofs.P.C09', streams=hist('C09'),
+                aspects=['gets', 'updates', 'removals'], monitors=['C09'],
+                theorems=['Esc.P.C09_untouched', 'Esc.P.C09_history', 'Esc.P.C09_uncounted'],
+                technique='Lean 4 theorem (journal anatomy: every node-targeting call names an uncordoned node of the view) + differential correspondence and runtime monitor',
+                level_text='C09_untouched / C09_history: outside dry mode every GET/UPDATE/DELETE/terminate targets an uncordoned node of that scan\'s view, whatever the cordoned nodes carry; '
+                           'C09_uncounted: a cordoned node is in none of the working lists (so not in the capacity sum). Tie: hist correspondence on node-targeting calls + monitor. '
+                           'The scale-from-zero size cache is filled from the first listed node before classification (finding T3, see DESIGN.md).',
+                level_note=LEVEL_NOTE),
+    'C10': dict(level='proof', module='EscProofs.P.C10', streams=hist('C10'),
+                aspects=['removals'], monitors=['C10'],
+                theorems=['Esc.P.C10_protected', 'Esc.P.C10_history', 'Esc.P.C10_empty_value_unprotected', 'Esc.P.C10_still_counted',
+                          'Esc.P.C10_capacity_unchanged', 'Esc.P.C10_no_holdback'],
+                technique='Lean 4 theorem (journal anatomy: removal candidates are never protected) + differential correspondence and runtime monitor',
+                level_text='C10_protected / C10_history: every removal call is backed by a node that is not protected (non-empty annotation, no force taint), for all ages and emptiness, along all histories; '
+                           'classification and capacity ignore annotations; candidates are computed node by node (no hold-back). Tie: hist correspondence on removal calls + monitor.',
+                level_note=LEVEL_NOTE),
+    'C11': dict(level='proof', module='EscProofs.P.C11', streams=hist('C11', focus='dry'),
+                aspects=['drywrites'], monitors=['C11'],
+                theorems=['Esc.P.C11_scan', 'Esc.P.C11_history', 'Esc.P.C11_reading'],
+                technique='Lean 4 theorem (journal anatomy: with either dry switch every entry is a read) + differential correspondence and runtime monitor',
+                level_text='C11_scan / C11_history: with the global flag or the group option set, the group scan journal contains no write, for every state/view/environment and every history. '
+                           'Scope: scans (RunOnce); the one-off ASG tag write at provider construction is outside. Isolation of other groups is C12. Tie: hist (dry-focused) on writes of dry groups + monitor.',
+                level_note=LEVEL_NOTE),
 }
 
 # diffs that are relevant whatever the property (the scan's overall result)
